@@ -209,17 +209,18 @@ def main():
     #      re-entrant bodies: only the checker runs, on the implementation's trace.
     reent_cov = None
     if prop == "C02" and core_ok:
-        recases = load_corpus("C02-reentrant") + gen.generate_reentrant(seed, 200 if tier == "quick" else 6000)
+        recases = load_corpus("C02-reentrant") + gen.generate_reentrant(seed, 200 if tier == "quick" else 20000)
         recases, retraces = common.run_impl_parallel(recases)
 
         def re_eval(cs, ts):
-            out = []
-            for lo in range(0, len(cs), 250):
+            def one(lo):
                 src = emit.cases_file(list(zip(cs[lo:lo + 250], ts[lo:lo + 250])), extra="Spec Check Cases",
                                       defs=["Definition V := Eval vm_compute in viol_all (fun c obs => chk_C02 (cs_hist c) obs) all_cases.", "Print V."])
                 o = common.coq_eval(src, timeout=3000)
-                out += [(lo + a[0],) + tuple(a[1:]) for a in common.parse_pairs(common.parse_printed(o, "V"))]
-            return out
+                return [(lo + a[0],) + tuple(a[1:]) for a in common.parse_pairs(common.parse_printed(o, "V"))]
+            from concurrent.futures import ThreadPoolExecutor
+            with ThreadPoolExecutor(max_workers=16) as ex:
+                return [v for part in ex.map(one, range(0, len(cs), 250)) for v in part]
         reV = re_eval(recases, retraces)
         nested_runs = sum(1 for c, t in zip(recases, retraces) for f in c["fns"] if f.get("nested")
                           for ot in t["ops"] for ev in ot["events"] if ev["ev"] == "exec" and ev["f"] in [n["fn"] for n in f["nested"]])
